@@ -70,11 +70,46 @@ def floatOfTok (t : String) : Option Float :=
     | 'f' => rest.toNat?.map (fun n => Float.ofBits n.toUInt64)
     | _ => none
 
-/-- `tostring` of a number, as the property fixes it: integral values below 2^53 print as plain decimal
-    digits.  Everything else is left unspecified here (`none`): generated programs never stringify it. -/
+/-- the digits `m` (no trailing zero, at most 14 of them) and decimal exponent `e` with `a = m.ddd × 10^e` when the
+    integer `a` is, as a float, the float nearest to such a short decimal; `none` when 14 digits do not identify it.
+    (The closest nd-digit decimal is tried for nd = 1, 2, …: the first that reads back as the same float has the
+    fewest digits any round-tripping decimal can have.) -/
+def shortDecimal? (a : Nat) : Option (Nat × Nat) :=
+  let k := (toString a).length
+  let fa := Float.ofNat a
+  (List.range 14).findSome? fun j =>
+    let nd := j + 1
+    if nd > k then none
+    else
+      let p := 10 ^ (k - nd)
+      let m := (a + p / 2) / p
+      if Float.ofNat (m * p) == fa then
+        -- (a carry to 10^nd means "1 × 10^k")
+        let (m, e) := if m = 10 ^ nd then (1, k) else (m, k - 1)
+        let rec strip (fuel m : Nat) : Nat := match fuel with
+          | 0 => m
+          | fuel + 1 => if m ≠ 0 ∧ m % 10 = 0 then strip fuel (m / 10) else m
+        some (strip 20 m, e)
+      else none
+
+/-- `d[.ddd]e+XX` (at least two exponent digits): the layout C's `%.14g` and Go's shortest `%v` share -/
+def fmtShortE (neg : Bool) (m e : Nat) : String :=
+  let ds := toString m
+  let mant := if ds.length = 1 then ds else (ds.take 1).toString ++ "." ++ (ds.drop 1).toString
+  let es := toString e
+  (if neg then "-" else "") ++ mant ++ "e+" ++ (if es.length < 2 then "0" ++ es else es)
+
+/-- `tostring` of a number, as far as the property fixes it for this implementation family: integral values below
+    2^53 print as plain decimal digits; integral values beyond the 64-bit integer range that a decimal of at most
+    14 digits identifies (1e19, -1e100, 5e20 …) print as `d.ddde+XX` — there Lua 5.1's `%.14g` and the shortest
+    round-trip form coincide.  Everything else is left unspecified (`none`). -/
 def numToStr? (f : Float) : Option String :=
   match floatExactInt? f with
-  | some i => if i.natAbs < pow2 53 then some (hexOfAscii (toString i)) else none
+  | some i =>
+    if i.natAbs < pow2 53 then some (hexOfAscii (toString i))
+    else if i.natAbs ≥ pow2 63 then
+      (shortDecimal? i.natAbs).map fun (m, e) => hexOfAscii (fmtShortE (i < 0) m e)
+    else none
   | none => none
 
 /-! ### string → number (Lua 5.1 `lua_str2number` = strtod, then optional trailing blanks; `0x` hex integers) -/
